@@ -318,3 +318,57 @@ def ecdh(case, ctx):
     r = l.sm2_do_ecdh(ka, pt_in(pb, lam), out)
     got, ok = pt_get(out)
     ctx.check(r == 1 and got == exp, "sm2_do_ecdh got %s expected %s" % (got, exp), "ecdh/do_ecdh")
+
+
+# ---------------------------------------------------------------------------
+pre_case = st.fixed_dictionaries({"d": gen.scalar_d(), "n": st.sampled_from([1, 16, 32, 33, 100, 255]), "seed": st.integers(0, 1 << 32),
+                                  "script": st.lists(_k_spec(), max_size=8)})
+
+
+@P.sub("precomp", pre_case, quick=500, thorough=30000)
+def precomp(case, ctx):
+    """the pre-computed-nonce encryptor: every slot of sm2_encrypt_pre_compute holds (k, [k]G) with k the accepted entropy draw, and
+    sm2_do_encrypt_ex with each slot produces the standard ciphertext for that nonce, which every decryptor opens"""
+    l = lib(ctx.variant)
+    sh = shim()
+    d = u(case["d"]); pub = M.pub_of(d)
+    n = case["n"]
+    pt = _pt(n, case["seed"], 0)
+    NUM = 8
+    pc = Buf(96 * NUM, fill=0)
+    script = b"".join(u(k).to_bytes(32, "little") for k in case["script"])
+    sh.stream(case["seed"], script)
+    try:
+        r = l.sm2_encrypt_pre_compute(pc)
+        draws = [sh.draw(i) for i in range(sh.draws())]
+    finally:
+        sh.reset()
+    ctx.case(nontrivial=True, classes=["scripted=%d" % len(case["script"]), "len:%d" % n], ident=case, sample=case)
+    ctx.check(r == 1, "sm2_encrypt_pre_compute ret=%d" % r, "precomp/ret")
+    accepted = [int.from_bytes(x, "little") for x in draws if x is not None and len(x) == 32 and 0 < int.from_bytes(x, "little") < M.N]
+    raw = pc.raw()
+    pubkey = key_in(None, pub)
+    privkey = key_in(d, pub)
+    for i in range(NUM):
+        k = int.from_bytes(raw[96 * i:96 * i + 32], "little")
+        x1, y1 = M.b2i(raw[96 * i + 32:96 * i + 64]), M.b2i(raw[96 * i + 64:96 * i + 96])
+        ctx.check(0 < k < M.N, "slot %d holds the nonce %x outside [1, n-1]" % (i, k), "precomp/k-range")
+        if i < len(accepted):
+            ctx.check(k == accepted[i], "slot %d nonce %x is not the accepted entropy draw %x" % (i, k, accepted[i]), "precomp/k-not-from-entropy")
+        exp = M.mul(k, M.G)
+        ctx.check((x1, y1) == exp, "slot %d: stored C1 (%x,%x) != [k]G for k=%x" % (i, x1, y1, k), "precomp/c1/slot%d" % i)
+        mc = M.encrypt_with_k(pub, pt, k)
+        cb = Buf(sizeof("SM2_CIPHERTEXT"), fill=0)
+        slot = Buf.of(raw[96 * i:96 * i + 96])
+        r2 = l.sm2_do_encrypt_ex(pubkey, slot, Buf.of(pt), n, cb)
+        if mc is None:
+            ctx.note("kdf-all-zero")
+            continue
+        ctx.check(r2 == 1, "sm2_do_encrypt_ex with slot %d ret=%d" % (i, r2), "precomp/encrypt-ret")
+        x, y, hsh, c2 = _ct_struct_get(cb)
+        ctx.check(((x, y), hsh, c2) == (mc[0], mc[1], mc[2]), "sm2_do_encrypt_ex with slot %d (k=%x) differs from the standard ciphertext for that nonce" % (i, k),
+                  "precomp/ciphertext/slot%d" % i)
+        der = D.enc_ct(x, y, hsh, c2)
+        for how in ("decrypt", "do_decrypt"):
+            got = _lib_decrypt(l, privkey, der, how)
+            ctx.check(got == pt, "%s of the slot-%d ciphertext returns %s" % (how, i, got if got is None else got.hex()), "precomp/roundtrip/%s" % how)
